@@ -242,6 +242,20 @@ def main(argv):
     rc = 0
     for kl in sorted(set(known_lines)):
         print(kl)
+    search_info = None
+    if not violations and (broken_obl or disagreements) and "corr" in P["stages"] and not binfo.get("go_fail") \
+            and os.environ.get("VERIF_NO_EXTRA_SEARCH") != "1":
+        # something is no longer shown: search harder for a concrete failing input before giving up
+        def judge(rec):
+            v = record_violation(prop, rec)
+            if v and (prop == "C19" and corr.model_says_terminates(rec) or corr.asserted(rec, v)):
+                return v
+            return ""
+        rec, sres, search_info = corr.search_more(cdir, seed, judge, log=lambda s: print("[check]", s))
+        if rec is not None:
+            violations.append((search_info["what"], write_replay(prop, tier, seed, rec, sres, search_info["what"],
+                                                                  {"found_by": "extended search after a broken obligation/correspondence", "search": search_info}), True))
+        coverage_extra["extended_search"] = search_info
     if violations:
         rc = 1
         seen = set()
@@ -263,6 +277,9 @@ def main(argv):
                      "real": rec.get("real")}
         json.dump({"property": prop, "broken_obligations": broken_obl,
                    "correspondence_disagreements": len(disagreements), "first_disagreement": first,
+                   "disagreeing_inputs": [{"id": r.get("id"), "what": d[:160], "asserted_domain": corr.wf(r) if r.get("model") else None}
+                                          for r, d in disagreements[:25]],
+                   "extended_search": search_info,
                    "note": "the property is no longer shown to hold; the search over the generated stream "
                            "and the corpus found no input on which the real moq violates it"},
                   open(path, "w"), indent=1)
